@@ -5,7 +5,7 @@ import z3
 
 from . import values as V
 from .values import (Opt, Ptr, Opaque, Ref, StrV, BytesV, FuncV, ModV, HList, HDict, HRec, HSet, HRecList, ElemRef,
-                     HPointMap, PMEntry, is_sym, is_int_like,
+                     HPointMap, PMEntry, HexStrSet, is_sym, is_int_like,
                      is_bool_like, to_z3, parse_type)
 
 I = z3.IntSort()
@@ -542,6 +542,30 @@ def _s_ufi(eng, st, name, *args):
 @specfn("member")
 def _s_member(eng, st, cont, item):
   return eng.contains(st, cont, item, None)
+
+
+@specfn("iter_has")
+def _s_iter_has(eng, st, it, x):
+  """x occurs in the int iterable `it` (ghost relation for ref:IntIterable parameters; concrete tuples / lists / sets at
+  call sites)."""
+  if isinstance(it, Ref):
+    return ITER_HAS(it.term, to_z3(eng.need_int(st, x)))
+  if isinstance(it, Opt):
+    it = it.val
+  if isinstance(it, tuple):
+    return eng.or_(*[eng.eq(st, x, e) for e in it]) if it else False
+  if isinstance(it, Ptr):
+    o = st.deref(it)
+    if isinstance(o, HList) and not o.symbolic:
+      return eng.or_(*[eng.eq(st, x, e) for e in o.items]) if o.items else False
+    return eng.contains(st, it, x, None)
+  raise_unsupported("iter_has of this value")
+
+
+@specfn("hexset_has")
+def _s_hexset_has(eng, st, s, x):
+  """x is in the int set whose hex-string set has the string form s (library theory of str(set) / literal_eval)."""
+  return z3.Select(SETDEC(str_term(eng, st, s)), to_z3(eng.need_int(st, x)))
 
 
 @specfn("pm_has")
@@ -1638,7 +1662,24 @@ def havoc_set(eng, st, o, name):
   o.mem = lambda item, f=f: f(to_z3(eng.need_int(st, item)))
 
 
+ITER_HAS = z3.Function("spec.iter_has", V.RefSort, I, B)
+SETSTR = z3.Function("str_of_hexset", z3.ArraySort(I, B), V.StrSort)
+SETDEC = z3.Function("hexset_of_str", V.StrSort, z3.ArraySort(I, B))
+
+
+def _mem_array(st, mem):
+  """An array constant that IS the membership predicate (defined pointwise; no lambda term in the query)."""
+  x = z3.Int(V.fresh_name("sx"))
+  a = z3.Const(V.fresh_name("intset"), z3.ArraySort(I, B))
+  st.assume(z3.ForAll([x], z3.Select(a, x) == mem(x)))
+  return a
+
+
 def to_set(eng, st, v, node):
+  if isinstance(v, Ref) and v.cls == "IntIterable":
+    # an iterable of ints handed in by a caller: its element set as the ghost relation iter_has(ref, x)
+    t = v.term
+    return st.alloc(HSet(items=None, mem=lambda item, t=t: ITER_HAS(t, to_z3(eng.need_int(st, item)))))
   seq = as_iterable(eng, st, v, node)
   if seq[0] == "concrete":
     return st.alloc(HSet(items=make_set_items(eng, st, seq[1])))
@@ -1874,6 +1915,34 @@ def comprehension(eng, st, node, kind):
     return _comp_nested(eng, st, node, kind)
   gen = node.generators[0]
   it = eng.ev(gen.iter, st)
+  if isinstance(it, Opt) and isinstance(it.isnone, bool) and not it.isnone:
+    it = it.val
+  src = st.deref(it) if isinstance(it, Ptr) else it
+  if kind == "set" and not gen.ifs and ((isinstance(src, HSet) and src.items is None) or isinstance(src, HexStrSet)):
+    # image of a symbolic int set under format(., 'x'), or of a hex-string set under int(., 16): the same int set
+    j = z3.Int(V.fresh_name("sj"))
+    fr = Frame({}, st.frame, st.frame.module, fname=st.frame.fname)
+    st.frames.append(fr)
+    n0 = len(st.pc)
+    st.spec_depth += 1
+    st.nofresh += 1
+    try:
+      eng.assign(st, gen.target, j if isinstance(src, HSet) else StrV(HEX_OF(j)))
+      elt = eng.ev(node.elt, st)
+    finally:
+      st.nofresh -= 1
+      st.spec_depth -= 1
+      st.frames.pop()
+    del st.pc[n0:]
+    if isinstance(src, HSet) and isinstance(elt, StrV) and z3.is_app(elt.term) and elt.term.decl().eq(HEX_OF) \
+        and elt.term.arg(0).eq(j):
+      eng.used_theories.add("{format(i, 'x') for i in S}: the hex-string image of an int set (injective)")
+      return HexStrSet(src.mem)
+    if isinstance(src, HexStrSet) and is_sym(elt) and z3.is_app(elt) and elt.decl().eq(INT_OF_HEX) \
+        and z3.is_app(elt.arg(0)) and elt.arg(0).decl().eq(HEX_OF) and elt.arg(0).arg(0).eq(j):
+      eng.used_theories.add("{int(h, 16) for h in H}: decoding the hex-string image of an int set gives the set back")
+      return st.alloc(HSet(items=None, mem=src.mem))
+    raise_unsupported("set comprehension over a symbolic set with a general element expression")
   seq = as_iterable(eng, st, it, node)
   if seq[0] == "concrete":
     out = []
@@ -2193,6 +2262,15 @@ def call_method(eng, st, selfv, name, args, kwargs, node):
           for x in seq[1]:
             o.items[hashable(eng, st, x)] = x
         return None
+      if name == "union" and len(args) == 1 and (o.items is None or (
+          isinstance(args[0], Ptr) and isinstance(st.deref(args[0]), HSet) and st.deref(args[0]).items is None)):
+        # union with / of a symbolic int set: pointwise disjunction of the membership predicates
+        other = args[0].val if isinstance(args[0], Opt) else args[0]
+        if not (isinstance(other, Ptr) and isinstance(st.deref(other), HSet)):
+          raise Unsupported("set.union of a symbolic set with a non-set")
+        a_ptr, b_ptr = selfv, other
+        return st.alloc(HSet(items=None, mem=lambda item: eng.or_(eng.contains(st, a_ptr, item, node),
+                                                                   eng.contains(st, b_ptr, item, node))))
       if name == "union" and o.items is not None:
         d = dict(o.items)
         for a in args:
@@ -2417,6 +2495,10 @@ def call_lib(eng, st, name, args, kwargs, node):
     o.rep = V.fresh_rep(o.elem_t, "heap")
     o.length = o.length - 1
     return v
+  if name == "ast.literal_eval" and len(args) == 1 and isinstance(args[0], StrV):
+    eng.used_theories.add("str(S) / ast.literal_eval for a set S of lowercase hex strings: literal_eval(str(S)) == S")
+    t = args[0].term
+    return HexStrSet(lambda item, t=t: z3.Select(SETDEC(t), to_z3(eng.need_int(st, item))))
   if name == "collections.defaultdict":
     if (args and isinstance(args[0], FuncV) and args[0].kind == "builtin" and args[0].name == "list"
         and eng.cur is not None and getattr(eng.cur, "point_maps", False)):
@@ -2528,7 +2610,7 @@ def format_(eng, st, v, spec, node):
   if spec == "x" and is_int_like(v):
     eng.used_theories.add("format(x,'x') / int(s,16): int(format(x,'x'),16) == x for x>=0 (round-trip law)")
     t = HEX_OF(to_z3(v))
-    st.assume(z3.Implies(to_z3(v) >= 0, INT_OF_HEX(t) == to_z3(v)))
+    st.assume(INT_OF_HEX(t) == to_z3(v))      # int(format(x, 'x'), 16) == x for every int x ('-ff' for negatives)
     return StrV(t)
   return _uf_str(eng, st, f"format:{spec}", [v])
 
@@ -2544,6 +2626,12 @@ def str_to_int(eng, st, s, base, node):
 def str_of(eng, st, v, node):
   if isinstance(v, StrV):
     return v
+  if isinstance(v, HexStrSet):
+    eng.used_theories.add("str(S) / ast.literal_eval for a set S of lowercase hex strings: literal_eval(str(S)) == S")
+    a = _mem_array(st, v.mem)
+    t = SETSTR(a)
+    st.assume(SETDEC(t) == a, STRLEN(t) > 0)
+    return StrV(t)
   return _uf_str(eng, st, "str()", [v]) if not isinstance(v, Ptr) else Opaque("str(object)")
 
 
